@@ -12,9 +12,11 @@
      (10 frags (op ...))       _ExplodedList: explode_text_fragments(frags), then item/slice assignment, append, extend, += -> the list after each op
      (11 ((c w) ...) frags)    fragment_list_width with the given per-character widths (others 1) -> width
      (12 (((part ...) text) ...))  PygmentsTokens -> (frag ...)
+     (13 (part ...) (v ...))   HTML template by the values-as-data specification (Model/C18_HtmlAny.v) -> like 7 | (5) = no claim
+     (14 s)                    ANSI(s) by the token-sequence semantics (Model/C18_AnsiSeq.v) -> like 3
    frag = (style text rest). *)
 From Coq Require Import ZArith List Bool.
-From PTK Require Import Lib.Sx Lib.Py Model.C18_Fragments Model.C18_Ansi Model.C18_Html Model.C18_Convert Model.C18_AnsiGrammar Model.C18_Exploded Model.C18_Width.
+From PTK Require Import Lib.Sx Lib.Py Model.C18_Fragments Model.C18_Ansi Model.C18_Html Model.C18_Convert Model.C18_AnsiGrammar Model.C18_Exploded Model.C18_Width Model.C18_HtmlAny Model.C18_AnsiSeq.
 Import ListNotations.
 Open Scope Z_scope.
 
@@ -84,6 +86,22 @@ Definition run_C18 (c : sx) : sx :=
       match dec_frags fs, map_opt dec_elop ops with
       | Some frs, Some ops' => L (map enc_frags (el_run (explode frs) ops'))
       | _, _ => bad_case
+      end
+  | L [A 13; ps; vs] =>
+      match dec_strs ps, dec_strs vs with
+      | Some ps', Some vs' =>
+          if len ps' =? len vs' + 1 then
+            match html_values_as_data ps' vs' with
+            | Some r => enc_res r
+            | None => L [A 5]
+            end
+          else bad_case
+      | _, _ => bad_case
+      end
+  | L [A 14; s] =>
+      match as_str s with
+      | Some s' => enc_res (Ok (ansi_sem s'))
+      | None => bad_case
       end
   | L [A 9; s] =>
       match as_str s with
